@@ -141,6 +141,10 @@ func genericFacts(h *Hand) {
 	if h.Cfg.DeadSB {
 		h.Facts["dead-sb"] = true
 	}
+	if h.Cfg.NoSBSeat {
+		h.Facts["no-sb-seat"] = true
+	}
+	h.Facts[fmt.Sprintf("variant:%d/%d", h.Cfg.Hole, h.Cfg.Req)] = true
 	if h.Cfg.DB > 0 {
 		h.Facts["dealer-blind"] = true
 	}
